@@ -337,6 +337,8 @@ def compare(gs, model, real, err):
         if m is None:
             return 'model output ends before step %d' % k
         if m[0] == 'err':
+            if fast and rl is not None and rl[0] == 'gone' and err is None:
+                return None          # the model reports the error the property demands; the real run erased the particle silently: oracle `C08-fast-lost-silently`
             if rl is not None:
                 return 'step %d: model %s, real binary produced a state' % (k, m)
             if err != m[1]:
@@ -356,6 +358,16 @@ def compare(gs, model, real, err):
             continue
         _, mr, mv, mcell, _ = m
         _, rr, rv, rcell, _ = rl
+        # A hit at the very end of the step (t = dt in exact arithmetic): after earlier hits with non-dyadic hit times the real position
+        # carries one rounding, and whether the reflection is booked in this step or at the start of the next one is decided by that
+        # rounding.  Both particles are AT the wall (within 2 eps) with opposite normal velocity: not a disagreement; the rest of the run
+        # is shifted by one step and is not compared.
+        flip = [d for d in range(3) if mv[d] != rv[d]]
+        if len(flip) == 1 and not gs['per'][flip[0]] and mv[flip[0]] == -rv[flip[0]]:
+            d = flip[0]
+            wall = F(0) if min(mr[d], rr[d]) < gs['box'][d] / 2 else gs['box'][d]
+            if abs(mr[d] - wall) <= 2 * EPS and abs(rr[d] - wall) <= 2 * EPS:
+                return None
         for d in range(3):
             if mv[d] != rv[d]:
                 return 'step %d: v[%d] model %s real %s' % (k, d, mv[d], rv[d])
@@ -390,9 +402,13 @@ def oracle(gs, dump, rc, out, err):
         fails.append(('abort-with-force', 'run aborted (%s)' % err))
     prev = None
     edge = False
+    onwall = False
     for step, free in states:
         if prev:
             edge = edge or (forcefree and edge_in_step(gs, prev[0]))
+        # a particle lying EXACTLY in a wall plane (accelerated flight whose rounded end position is the wall coordinate): the hit at
+        # t = 0 is rejected by WallTriangle::hit, it leaves the domain in the next step and is erased (same root as C08-edge-hit-lost)
+        onwall = onwall or any((not per[d]) and (p['r'][d] == 0 or p['r'][d] == L[d]) for p in free for d in range(3))
         nf = len(fails)
         if len(free) != n0 and not slow and forcefree and rc == 0:
             # displacement above one cell: the property demands an ERROR; the particle was erased and the run went on
@@ -403,6 +419,8 @@ def oracle(gs, dump, rc, out, err):
             fails.append(('particle-lost', 'step %d: %d free particles, %d at the start' % (step, len(free), n0)))
             if edge:
                 fails[nf:] = [('C08-edge-hit-lost/' + sig, text) for sig, text in fails[nf:]]
+            elif onwall and not forcefree:
+                fails[nf:] = [('C08-on-wall-plane-lost/' + sig, text) for sig, text in fails[nf:]]
             break
         for p in free:
             for d in range(3):
@@ -445,6 +463,8 @@ def oracle(gs, dump, rc, out, err):
                         fails.append(('mirror-law', 'step %d dir %d: r %.17g, expected %.17g' % (step, d, float(p1['r'][d]), float(want_r))))
         if edge:
             fails[nf:] = [('C08-edge-hit-lost/' + sig, text) for sig, text in fails[nf:]]
+        elif onwall and not forcefree:
+            fails[nf:] = [('C08-on-wall-plane-lost/' + sig, text) for sig, text in fails[nf:]]
         prev = free
     return fails, obs
 
@@ -479,6 +499,12 @@ CORPUS = [
     # earlier false alarm (thorough tier): exact edge hit with bounce-back where the real wall order differs from the model's
     dict(kind='edge', box=[F(5, 2), F(2), F(3, 2)], ncell=[5, 4, 3], rc=F(1, 2), per=[True, False, False], refl='bounceback',
          r=[F(151, 64), F(119, 64), F(9, 32)], v=[F(1, 2), F(1, 4), F(-1, 2)], dt=F(3, 4), steps=4, force=None),
+    # known finding C08-on-wall-plane-lost: accelerated flight whose rounded end position is exactly the wall coordinate
+    dict(kind='force', box=[F(4), F(4), F(4)], ncell=[4, 4, 4], rc=F(1), per=[True, False, False], refl='bounceback',
+         r=[F(43, 64), F(51, 16), F(249, 64)], v=[F(1, 4), F(-3, 64), F(5, 16)], dt=F(1, 8), steps=32, force=[F(0), F(1, 4), F(1)]),
+    # earlier false alarm (thorough tier): a hit exactly at the end of a step after a hit with a non-dyadic hit time
+    dict(kind='oblique', box=[F(2), F(3), F(4)], ncell=[2, 3, 4], rc=F(1), per=[False, False, False], refl='mirror',
+         r=[F(1, 64), F(17, 16), F(3, 4)], v=[F(-3, 16), F(1, 8), F(-1, 2)], dt=F(3, 4), steps=5, force=None),
     # the demonstration of a receding particle pulled back into the wall (accelerated flight)
     dict(kind='pullback', box=[F(4), F(4), F(4)], ncell=[4, 4, 4], rc=F(1), per=[False, False, False], refl='mirror',
          r=[F(2), F(2), F(1, 256)], v=[F(0), F(0), F(1, 8)], dt=F(1, 8), steps=4, force=[F(0), F(0), F(-16)]),
